@@ -8,6 +8,8 @@ use crate::world::*;
 use interchain_token_service::types::TokenManagerType;
 use interchain_token_service::InterchainTokenServiceClient;
 use proptest::prelude::*;
+#[allow(unused_imports)]
+use crate::prop_oneof;
 use serde::{Deserialize, Serialize};
 use soroban_sdk::{Address, BytesN, Env};
 use std::collections::BTreeMap;
@@ -122,7 +124,7 @@ fn op() -> impl Strategy<Value = Op> {
     prop_oneof![
         5 => (0u8..2, 0u8..2, 0u8..2, meta(), supply(), minter_sel()).prop_map(|(its, deployer, salt, meta, supply, minter)| Op::DeployLocal { its, deployer, salt, meta, supply, minter }),
         3 => (0u8..2, 0u8..4).prop_map(|(its, asset)| Op::RegisterCanonical { its, asset }),
-        3 => (0u8..2, proptest::option::of(0u8..6), 0u8..6, meta(), minter_sel()).prop_map(|(its, collide, fresh, meta, minter)| Op::RemoteDeploy { its, collide, fresh, meta, minter }),
+        3 => (0u8..2, crate::engine::opt_of(0u8..6), 0u8..6, meta(), minter_sel()).prop_map(|(its, collide, fresh, meta, minter)| Op::RemoteDeploy { its, collide, fresh, meta, minter }),
         1 => (1u8..60).prop_map(Op::AdvanceDays),
         1 => (0u8..2, 0u8..4).prop_map(|(its, asset)| Op::RequestRemoteCanonical { its, asset }),
         1 => (0u8..2, 0u8..2, 0u8..2).prop_map(|(its, deployer, salt)| Op::RequestRemoteInterchain { its, deployer, salt }),
